@@ -326,6 +326,26 @@ impl<'a, 'tcx> Cx<'a, 'tcx> {
             if !args.is_empty() {
                 o.put("gargs", J::Arr(args.iter().map(|a| J::s(a.to_string())).collect()));
             }
+            // rustc's layout of the (monomorphic) type argument of Layout::of::<T>() /
+            // TypeId::of::<T>() / size_of::<T>(): the compiler's layout engine is the oracle
+            let dp = self.tcx.def_path_str(did);
+            if dp.ends_with("Layout::of") || dp.ends_with("TypeId::of") || dp.ends_with("mem::size_of") {
+                if let Some(t) = args.types().next() {
+                    use rustc_middle::ty::TypeVisitableExt;
+                    if !t.has_param() && !t.has_aliases() {
+                        let env = TypingEnv::fully_monomorphized();
+                        if let Ok(l) = self.tcx.layout_of(env.as_query_input(t)) {
+                            o.put(
+                                "garg_layout",
+                                J::Arr(vec![
+                                    J::Int(l.size.bytes() as i128),
+                                    J::Int(l.align.abi.bytes() as i128),
+                                ]),
+                            );
+                        }
+                    }
+                }
+            }
             // try resolving trait methods to their impl
             if matches!(self.tcx.def_kind(did), DefKind::Fn | DefKind::AssocFn) {
                 if let Ok(Some(inst)) = Instance::try_resolve(self.tcx, self.env, did, args) {
